@@ -13,6 +13,7 @@ pub struct PagedWriter<T: Write + Read + Seek> {
     writer: T,
     offset: usize,
     page_buffer: [u8; PAGE_SIZE as usize],
+    failed: bool,
 
     #[cfg(not(feature = "crc32c"))]
     crc: Crc32,
@@ -31,14 +32,47 @@ impl<T: Write + Read + Seek> PagedWriter<T> {
             writer,
             offset: 0,
             page_buffer: [0_u8; PAGE_SIZE as usize],
+            failed: false,
 
             #[cfg(not(feature = "crc32c"))]
             crc: Crc32::new(),
         })
     }
 
+    /// After an IO error the state of the writer and the underlying file is undefined.
+    /// This makes sure that all following operations fail instead of silently creating corrupt files.
+    fn guard<R>(&mut self, operation: impl FnOnce(&mut Self) -> Result<R>) -> Result<R> {
+        if self.failed {
+            Error::invalid("A previous IO operation failed, the writer can no longer be used")?
+        }
+        let result = operation(self);
+        if matches!(result, Err(Error::Read { .. }) | Err(Error::Write { .. })) {
+            self.failed = true;
+        }
+        result
+    }
+
     /// Get the current physical offset in the file.
     pub fn physical_position(&mut self) -> Result<u64> {
+        self.guard(|s| s.physical_position_inner())
+    }
+
+    /// Seek to a specific physical offset in the file.
+    pub fn physical_seek(&mut self, pos: u64) -> Result<()> {
+        self.guard(|s| s.physical_seek_inner(pos))
+    }
+
+    // Get the current physical size of the file.
+    pub fn physical_size(&mut self) -> Result<u64> {
+        self.guard(|s| s.physical_size_inner())
+    }
+
+    /// Write some zeros to next 4-byte-aligned offset, if needed.
+    pub fn align(&mut self) -> Result<()> {
+        self.guard(|s| s.align_inner())
+    }
+
+    fn physical_position_inner(&mut self) -> Result<u64> {
         let pos = self
             .writer
             .stream_position()
@@ -46,8 +80,7 @@ impl<T: Write + Read + Seek> PagedWriter<T> {
         Ok(pos + self.offset as u64)
     }
 
-    /// Seek to a specific physical offset in the file.
-    pub fn physical_seek(&mut self, pos: u64) -> Result<()> {
+    fn physical_seek_inner(&mut self, pos: u64) -> Result<()> {
         // Make sure we wrote any current (partial) page before seeking
         self.flush().write_err("Failed to flush before seeking")?;
 
@@ -106,8 +139,7 @@ impl<T: Write + Read + Seek> PagedWriter<T> {
         Ok(())
     }
 
-    // Get the current physical size of the file.
-    pub fn physical_size(&mut self) -> Result<u64> {
+    fn physical_size_inner(&mut self) -> Result<u64> {
         self.flush().write_err("Cannot flush writer")?;
         let pos = self
             .writer
@@ -123,8 +155,7 @@ impl<T: Write + Read + Seek> PagedWriter<T> {
         Ok(size)
     }
 
-    /// Write some zeros to next 4-byte-aligned offset, if needed.
-    pub fn align(&mut self) -> Result<()> {
+    fn align_inner(&mut self) -> Result<()> {
         let zeros = [0u8; 4];
         let mod_offset = self.offset % 4;
         if mod_offset != 0 {
@@ -137,6 +168,33 @@ impl<T: Write + Read + Seek> PagedWriter<T> {
 
 impl<T: Write + Read + Seek> Write for PagedWriter<T> {
     fn write(&mut self, buf: &[u8]) -> std::io::Result<usize> {
+        self.guard_io(|s| s.write_inner(buf))
+    }
+
+    fn flush(&mut self) -> std::io::Result<()> {
+        self.guard_io(|s| s.flush_inner())
+    }
+}
+
+impl<T: Write + Read + Seek> PagedWriter<T> {
+    fn guard_io<R>(
+        &mut self,
+        operation: impl FnOnce(&mut Self) -> std::io::Result<R>,
+    ) -> std::io::Result<R> {
+        if self.failed {
+            return Err(std::io::Error::new(
+                std::io::ErrorKind::Other,
+                "A previous IO operation failed, the writer can no longer be used",
+            ));
+        }
+        let result = operation(self);
+        if result.is_err() {
+            self.failed = true;
+        }
+        result
+    }
+
+    fn write_inner(&mut self, buf: &[u8]) -> std::io::Result<usize> {
         let remaining_page_bytes = PAGE_PAYLOAD_SIZE - self.offset;
         let writeable_bytes = buf.len().min(remaining_page_bytes);
         self.page_buffer[self.offset..self.offset + writeable_bytes]
@@ -162,7 +220,7 @@ impl<T: Write + Read + Seek> Write for PagedWriter<T> {
         Ok(writeable_bytes)
     }
 
-    fn flush(&mut self) -> std::io::Result<()> {
+    fn flush_inner(&mut self) -> std::io::Result<()> {
         // If the page buffer is empty we do not need to persist it
         if self.offset > 0 {
             // Store start position in current page
